@@ -760,7 +760,7 @@ func runBFS(f *vevid.Flags, rep *vevid.Report, r replay) {
 			before := rep.ViolationCount
 			s, err := newBsys(cfg)
 			if err != nil {
-				vevid.Fatal("new queue: %v", err)
+				vevid.OpFailed("new queue: %v", err)
 			}
 			prev := s.Canon()
 			for _, ev := range r.History {
